@@ -86,8 +86,6 @@ def build_tensor(spec, route="ref"):
         return t
     if route == "yaml":
         t = build_tensor(spec, "ref")
-        if default != 0:
-            return t
         path = os.path.join(tmpdir(), f"b{os.getpid()}.yaml")
         t.dump(path)
         try:
